@@ -1,32 +1,33 @@
 (* C08 — every call completes under every schedule (provided the wrapped primitive returns).
-   Level: PARTIAL.  Proved for the repaired variant (HEAD: timed retry wait + repaired failure path, any linger), for
-   every reachable state of any number of threads/calls and every schedule:
+   Repaired variant (HEAD: timed retry wait + repaired failure path, any linger); every number of threads, finite call
+   lists, pubs; every schedule.
+     * C08_strong_fair_termination  LIVENESS: along every infinite schedule sigma : nat -> tid * choice that is strongly
+                               fair (a thread that is enabled infinitely often takes a step infinitely often; picks whose
+                               operation is not enabled with the offered choice are skipped) the run from the initial
+                               state reaches a state in which every submitted call has returned (the outcomes of every
+                               thread are exactly its call list, in order), and the state never changes afterwards.
+                               Choice fairness is part of the hypothesis in the only form needed: taking a step requires
+                               an admissible choice, so a timed wait that is enabled infinitely often eventually gets the
+                               timeout, a notify an in-range waiter, the primitive's result() eventually comes back.
+                               Proof (Batch/FairBase_proofs.v, FairStag_proofs.v, Fair_proofs.v): a variant V that no step
+                               increases and every step outside the two polling loops (retry loop E0..F5, executor loop
+                               R0..R7) decreases; if V stagnated for ever, fairness and the invariant exclude, one after
+                               the other, every thread outside the loops, the polling executor, and finally force a
+                               retrying thread through a successful try-acquire.  Uses excluded middle
+                               (Classical_Prop.classic) and nothing else: the argument is by contradiction on infinite runs.
+     * C08_weak_fairness_insufficient  the same statement with WEAK fairness is false for the model (a reachable cycle of
+                               the polling executor in which a member is enabled only intermittently and never scheduled).
      * C08_no_stuck_state      no deadlock: while a call is unfinished some thread can take a step;
      * C08_waiters_have_wakers no lost wake-up: every thread blocked in an untimed wait or blocking acquire waits for a
-                               specific other live thread (member -> a thread still to be counted / the executor, which
-                               has not left its re-notify loop; lock waiter -> the holder);
-     * C08_legacy_refuted      the untimed retry wait (before fix cf627d8) does deadlock: concrete two-thread schedule.
+                               specific other live thread;
      * C08_can_always_finish   no trap: from every reachable state some finite schedule completes every submitted call
-                               (explicit drain policy + a natural-number measure that decreases at every policy step:
-                               Batch/DrainMu_proofs.v, Batch/Drain_proofs.v); the wrapper never reaches a state from which
-                               completion is impossible and never stops accepting batches.
-   NOT proved (stated here in full, not claimed; this is why the level is partial):
-     * C08_fair_termination, with
-         trace v st0 sigma n       := run v st0 (map sigma (seq 0 n))            (sigma : nat -> tid * nat, an infinite schedule)
-         enabled_at v st t         := exists c st', step v st t c = Some st'
-         strongly_fair v st0 sigma := forall t, (forall n, exists m st, n <= m /\ trace v st0 sigma m = Some st /\ enabled_at v st t)
-                                                -> forall n, exists m, n <= m /\ fst (sigma m) = t
-       the statement
-         forall v calls sigma, ext_wait_timed v = true -> failure_path_repaired v = true ->
-           (forall n, trace v (init_state calls) sigma n <> None) -> strongly_fair v (init_state calls) sigma ->
-           exists n st, trace v (init_state calls) sigma n = Some st /\ all_done st = true
-       (every strongly fair infinite schedule completes every call).  With WEAK fairness the statement is false for the
-       model: C08_weak_fairness_insufficient below exhibits a reachable cycle of the polling executor during which a
-       member is enabled only intermittently and never scheduled.  The theorems above exclude deadlock, lost wake-ups and
-       traps; they do not exclude starvation by a scheduler/lock that never lets a thread win a race it can win
-       infinitely often (in the real code the executor sleeps in wait(0.5) with the condition's lock released).
+                               (constructive: explicit drain policy and measure, Batch/DrainMu_proofs.v, Drain_proofs.v);
+     * C08_legacy_refuted      the untimed retry wait (before fix cf627d8) does deadlock: concrete two-thread schedule.
+   Modelled, not verified: that the runtime is strongly fair in this sense (CPython eventually runs every thread that is
+   runnable infinitely often and lets it win a lock race it can win infinitely often; wait(0.5) really times out).
+   All theorems except C08_strong_fair_termination are closed under the global context.
    Property theorems only. *)
-From QV Require Import Common.Base Batch.Monitor Batch.ListX Batch.Inv Batch.Route Batch.Live Batch.Live_proofs Batch.Drain_proofs.
+From QV Require Import Common.Base Batch.Monitor Batch.ListX Batch.Inv Batch.Route Batch.Live Batch.Live_proofs Batch.Drain_proofs Batch.Fair Batch.Fair_proofs.
 
 Theorem C08_legacy_refuted :
   exists st, run legacy_wait (init_state c08_calls) c08_sched = Some st
@@ -63,7 +64,22 @@ Theorem C08_can_always_finish : forall v st,
 Proof. exact can_always_finish. Qed.
 Print Assumptions C08_can_always_finish.
 
-(* Weak fairness is not enough (hence the strong-fairness form of the unproved C08_fair_termination above): a reachable
+Theorem C08_strong_fair_termination : forall v calls sigma,
+  ext_wait_timed v = true -> failure_path_repaired v = true -> strongly_fair v (init_state calls) sigma ->
+  exists n, all_returned calls (rs v (init_state calls) sigma n)
+            /\ forall m, n <= m -> rs v (init_state calls) sigma m = rs v (init_state calls) sigma n.
+Proof. exact strong_fair_termination. Qed.
+Print Assumptions C08_strong_fair_termination.
+
+(* the hypotheses are satisfiable: the three-thread demo schedule (padded with idle picks) is strongly fair and its run
+   returns every call *)
+Example C08_fair_nonvacuous :
+  strongly_fair (head true) (init_state demo_calls) demo_sigma
+  /\ all_returned demo_calls (rs (head true) (init_state demo_calls) demo_sigma 77).
+Proof. exact demo_fair_run. Qed.
+Print Assumptions C08_fair_nonvacuous.
+
+(* Weak fairness is not enough (hence strong fairness in C08_strong_fair_termination): a reachable
    state st and a non-empty schedule of the polling executor alone that returns to st, while member T0 is enabled in st
    (so it is enabled infinitely often), disabled after the second step of the cycle (the executor holds the condition lock) (so it is not continuously enabled),
    and never scheduled. *)
